@@ -4,7 +4,7 @@ from sim import estimsim
 
 PROPERTY = 'C09'
 LEVEL = 'exploration'
-ENGINE = 'L1-sessions'
+ENGINE = 'L1-estimsim'
 COMPONENTS_REAL = [
     'src/error_estimator.py: ErrorEstimator.estimate_sobolev, '
     'estimate_weighted_l2, sobolev_space, sobolev_time, weighted_l2 and the '
